@@ -311,13 +311,13 @@ pub fn run_history(prog: &Prog, path: &[PEvent]) -> Vec<Step> {
 
 /// Did this panic come from harness code (a bug of ours), as opposed to pie or an intended task panic?
 pub fn is_harness_bug(p: &PanicInfo) -> bool {
-  if p.msg.starts_with(TASK_PANIC_MSG) || p.msg.starts_with(CRASH_MSG) || p.msg.starts_with(RECURSION_MSG) { return false; }
+  if p.msg.starts_with(TASK_PANIC_MSG) || p.msg.starts_with(CRASH_MSG) || p.msg.starts_with(RECURSION_MSG) || p.msg.starts_with(crate::world::RUNAWAY_MSG) { return false; }
   p.msg.starts_with("HARNESS-BUG") || (p.file.contains("/mc/src/") && !p.file.contains("/repo/"))
 }
 
 /// Classification of a panic message.
 #[derive(Clone, Copy, PartialEq, Eq, Hash, PartialOrd, Ord, Debug)]
-pub enum PanicKind { Hidden, Overlap, Cycle, TaskPanic, InjectedCrash, Recursion, Internal }
+pub enum PanicKind { Hidden, Overlap, Cycle, TaskPanic, InjectedCrash, Recursion, Runaway, Internal }
 
 pub fn panic_kind(p: &PanicInfo) -> PanicKind {
   if p.msg.starts_with("Hidden dependency") { PanicKind::Hidden }
@@ -326,6 +326,7 @@ pub fn panic_kind(p: &PanicInfo) -> PanicKind {
   else if p.msg.starts_with(TASK_PANIC_MSG) { PanicKind::TaskPanic }
   else if p.msg.starts_with(CRASH_MSG) { PanicKind::InjectedCrash }
   else if p.msg.starts_with(RECURSION_MSG) { PanicKind::Recursion }
+  else if p.msg.starts_with(crate::world::RUNAWAY_MSG) { PanicKind::Runaway }
   else { PanicKind::Internal }
 }
 
